@@ -1,1 +1,4 @@
 import SmoothProofs.Real
+import SmoothProofs.C18Conc
+import SmoothProofs.C18Inventory
+import SmoothProofs.Gen.SharedState
